@@ -991,6 +991,27 @@ def zeros_like(a, dtype=None):
 np.zeros_like = zeros_like
 
 
+def full(shape, fill_value, dtype=None, **kw):
+    kd = _kind(dtype) if dtype is not None else None
+    if is_sym(fill_value) or (kd in ('float', 'complex', None) and core.CUR[0] is not None and dtype is not None and not isinstance(dtype, rnp.dtype)):
+        if isinstance(shape, (int, rnp.integer)):
+            shape = (int(shape),)
+        v = fill_value
+        if kd == 'int':
+            v = sx_int(v) if isinstance(v, SYM) else builtins.int(v)      # the cast to an integer dtype truncates
+        elif kd == 'bool':
+            v = _b(v)
+        a = rnp.empty(tuple(shape), dtype=object)
+        a[...] = v
+        r = a.view(SArr)
+        r.ldtype = kd if kd else 'float'
+        return r
+    return rnp.full(shape, fill_value, dtype=dtype, **kw)
+
+
+np.full = full
+
+
 def ones_like(a, dtype=None):
     r = zeros_like(a, dtype)
     if isinstance(r, SArr):
@@ -1507,10 +1528,16 @@ def putmask(a, mask, values):
 np.putmask = putmask
 
 
-def isclose(a, b, **k):
+def isclose(a, b, rtol=1e-05, atol=1e-08, equal_nan=False):
+    """numpy's definition: |a - b| <= atol + rtol * |b|"""
     if is_sym(a) or is_sym(b):
-        return emap(_cmp('eq'), a, b)
-    return rnp.isclose(a, b, **k)
+        def f(x, y):
+            d = e_abs(x - y)
+            return _cmp('le')(d, atol + rtol * e_abs(y))
+        if isinstance(a, (rnp.ndarray, list, tuple)) or isinstance(b, (rnp.ndarray, list, tuple)):
+            return emap(f, a, b)
+        return f(a, b)
+    return rnp.isclose(a, b, rtol=rtol, atol=atol, equal_nan=equal_nan)
 
 
 np.isclose = isclose
